@@ -212,7 +212,7 @@ class Check:
         # everything the Props files import must be built
         for pf in props_files:
             src = open(os.path.join(COQ, pf)).read()
-            for m in re.findall(r"From PyQMC Require Import ([^.]*(?:\.[A-Za-z0-9_]+)*[^.]*)\.", src):
+            for m in re.findall(r"From PyQMC Require (?:Import|Export)\s+(.*?)\.(?=\s|$)", src, flags=re.S):
                 for mod in m.split():
                     t = mod.replace(".", "/") + ".vo"
                     if t not in targets and os.path.exists(os.path.join(COQ, t[:-1])):
